@@ -104,7 +104,12 @@ class DictProxy(dict):
         super().__setitem__(key, value)
 
     def _ref_path(self, key: str) -> str:
-        return "%s[%s]" % (self.dict_field._ref_path, key)
+        path = getattr(self.cfg, "_ref_path", "")
+        if path:
+            path += "." + self.dict_field._key
+        else:
+            path = self.dict_field._key
+        return "%s[%s]" % (path, key)
 
     def _validate(self, key: Any, value: Any) -> Tuple[Any, Any]:
         try:
